@@ -39,6 +39,10 @@ if HOSTILE:
     logging.disable(logging.NOTSET)
     logging.root.handlers[:] = [_FormatAndDrop()]
     logging.root.setLevel(logging.DEBUG)
+    # an embedding application that has lowered the decimal precision (the tutorial's getcontext().prec = 6); inherited by forked workers
+    import decimal as _decimal
+
+    _decimal.getcontext().prec = 6
 else:
     logging.disable(logging.CRITICAL)
 
